@@ -2,7 +2,10 @@ import vlib
 
 class P(vlib.Prop):
     id = "C06"
-    rule = ("one stage: a corpus of hand-picked filesystems (empty, empty file, setuid/setgid/sticky, uid/gid with and without passwd entries, "
+    rule = ("layerfile stage (exploration on real bytes): the real ImageLayoutToLayer emits layers of filesystems of different sizes to the SAME path "
+            "(explicit tarball path and temp-dir default, one build context re-used and fresh ones, a path that already holds other bytes, both backends); after each "
+            "emission the blob layer.Compressed() hands out must have the advertised size/digest/diff-id and untar to the filesystem's files. "
+            "layers stage: a corpus of hand-picked filesystems (empty, empty file, setuid/setgid/sticky, uid/gid with and without passwd entries, "
             "duplicate uids, xattrs, dangling symlinks, char devices, long and non-ASCII names, sibling-order corners, a multi-megabyte file, "
             "package files written through tarfs.WriteHeader, and the replay of every recorded finding) on both in-memory filesystems, then "
             "random filesystems built through the FullFS interface (quick 200, thorough 5000; files up to 8 MiB in thorough). For each: the state "
@@ -11,6 +14,7 @@ class P(vlib.Prop):
             "bytes are recomputed and compared with the v1.Layer. A case is non-trivial when it creates at least two nodes; distinct = distinct terms.")
     stages = (
         dict(name="layers", cmd="c06", args=lambda t, s: []),
+        dict(name="layerfile", cmd="c06", args=lambda t, s: ["-stage", "layerfile"]),
     )
     assumptions = (
         "the filesystem state is what the FullFS interface reports (ReadDir/Info/Readlink/Readnod/ListXattrs/ReadFile); which names are hard links of which is known from the operations the harness performed (the interface exposes no inode numbers)",
